@@ -9,11 +9,17 @@
 (* changes: Sylvester) -- and then feeds integer rows one at a time to the *)
 (* fraction-free Gram-Schmidt recurrence.  A row is accepted only when the *)
 (* new leading Gram minor is non-zero ("general position" is this exact    *)
-(* predicate).                                                             *)
+(* predicate) and the orthonormalised row has entries at most CondK (the   *)
+(* "bounded condition number" of the property).  A second initial          *)
+(* predicate, InitSym, starts instead from every symmetric integer matrix  *)
+(* with bounded entries and non-zero leading minors, with the signature    *)
+(* given by Jacobi's rule; the Inertia theorem then ties Jacobi's count to *)
+(* the signs Gram-Schmidt finds.                                           *)
 (*                                                                         *)
 (*   state (F, sig, rows, U, D):  w_i = U[i] / D[i-1] is the i-th          *)
 (*   orthogonalised row, <w_i, w_i> = D[i] / D[i-1], and the contract of   *)
-(*   indefinite_orthogonalize is  r_i = U[i] / sqrt|D[i] D[i-1]|.          *)
+(*   indefinite_orthogonalize is  r_i = w_i / sqrt|<w_i, w_i>|             *)
+(*                                = sgn(D[i-1]) U[i] / sqrt|D[i] D[i-1]|.  *)
 (*                                                                         *)
 (* TLC checks on every reachable state the theorems below (the oracle is   *)
 (* validated against independent computations: Bareiss determinants of the *)
